@@ -12,6 +12,8 @@ import (
 )
 
 type Clause struct {
+	Internal bool // "checks": proved for the function, not assumed at its call sites
+	Scope []string // heapinv: package names in which it is assumed
 	Kind  string   // requires | ensures | invariant | lemma | assert
 	Label string   // mandatory [label]
 	Props []string // optional {C11,C12}: restricts the clause to these properties
@@ -108,6 +110,8 @@ type Specs struct {
 	SpecOrd []string
 	Ghosts  map[string]*GhostField // key Type.Name
 	GhostGl map[string]string      // ghost globals: name -> sort
+	HeapInvs  []*Clause
+	Rep       map[string][]string  // abstract ghost field "T.f" -> modifies targets of its representation
 	Frameless map[string]bool      // ghost globals that every call may change unless its contract says otherwise (no frame obligations)
 	Guards  []*GuardedBy
 	Lemmas  []*Lemma
@@ -121,7 +125,7 @@ type Specs struct {
 
 func NewSpecs() *Specs {
 	return &Specs{Funcs: map[string]*FuncSpec{}, SpecFns: map[string]*SpecFunc{}, Ghosts: map[string]*GhostField{},
-		GhostGl: map[string]string{}, Frameless: map[string]bool{}, Consts: map[string]string{}, Scan: map[string]int{}, Pools: map[string]*PoolDecl{}, Preds: map[string]*SpecFunc{}}
+		GhostGl: map[string]string{}, Frameless: map[string]bool{}, Rep: map[string][]string{}, Consts: map[string]string{}, Scan: map[string]int{}, Pools: map[string]*PoolDecl{}, Preds: map[string]*SpecFunc{}}
 }
 
 var reLabel = regexp.MustCompile(`^\[([^\]]+)\]\s*`)
@@ -273,13 +277,18 @@ func (sp *Specs) LoadSpecFile(path string) error {
 			cur.Unshared = append(cur.Unshared, strings.Fields(rest)...)
 		case "abstracts":
 			cur.Abstracts = append(cur.Abstracts, rest)
-		case "requires", "ensures":
+		case "requires", "ensures", "checks":
 			if cur == nil {
 				return fmt.Errorf("%s:%d: %s outside func", path, ln, kw)
 			}
 			c, err := parseClause(kw, rest, path, ln)
 			if err != nil {
 				return err
+			}
+			if kw == "checks" {
+				// a postcondition about the function's own calls (result_of, called): proved, never exported to callers
+				c.Kind = "ensures"
+				c.Internal = true
 			}
 			if kw == "requires" {
 				cur.Requires = append(cur.Requires, c)
@@ -416,6 +425,28 @@ func (sp *Specs) LoadSpecFile(path string) error {
 			}
 			sp.Axioms = append(sp.Axioms, c)
 			sp.Scan["axiom"]++
+			lastExpr = &c.Expr
+			cur = nil
+		case "rep":
+			// rep index.ShardedIndex.model : type:btree.BTree.bm, ...   (representation of an abstract ghost field:
+			// a modifies target on the ghost field implies the listed targets)
+			k := strings.Index(rest, ":")
+			sp.Rep[strings.TrimSpace(rest[:k])] = append(sp.Rep[strings.TrimSpace(rest[:k])], splitComma(rest[k+1:])...)
+		case "heapinv":
+			// heapinv [label] expr : a trusted invariant of ghost state, assumed at function entry and after every call
+			c, err := parseClause("heapinv", rest, path, ln)
+			if err != nil {
+				return err
+			}
+			// optional scope: "in pkg1 pkg2 : expr" (assumed only in functions of those packages)
+			if strings.HasPrefix(c.Expr, "in ") {
+				if k := strings.Index(c.Expr, " : "); k > 0 {
+					c.Scope = strings.Fields(c.Expr[3:k])
+					c.Expr = strings.TrimSpace(c.Expr[k+3:])
+				}
+			}
+			sp.HeapInvs = append(sp.HeapInvs, c)
+			sp.Scan["heapinv"]++
 			lastExpr = &c.Expr
 			cur = nil
 		case "guarded_by":
